@@ -195,7 +195,7 @@ RULES = [
 ]
 
 MANIFEST = {
-    "text": "Table-level static decision over all seven variants: the split table of builder_with_combined_name (path-sensitive outcomes: split call, which half goes where, absent-separator case) and the join table of combined_name (decoded format template and argument origins) equal the documented table and agree with each other (join char = split char, direction per the property's side condition).",
+    "text": "Table-level static decision over all seven variants: the split table of builder_with_combined_name (path-sensitive outcomes: split call, which half goes where, absent-separator case) and the join table of combined_name (decoded format template and argument origins) equal the documented table and agree with each other (join char = split char, direction per the property's side condition). The re-build clause additionally needs the type's finish rules to be idempotent on an already normalised name: C10's finish-rule obligations (nuget lower-caser char by char, pypi transducer composed with itself, frame of the other types) are part of this check.",
     "note": "Trusted: rustc MIR, extractor, rsplit_once/split_once semantics. Exhaustive over the finite variant table; string-level behaviour follows under those semantics.",
     "technique": "path-sensitive outcome tables of two sibling functions compared with a reference table and with each other",
     "design_ref": "DESIGN.md 5.18",
